@@ -159,6 +159,7 @@ def match_dict_case(rng):
 def generate(rng, tier):
     n = 1800 if tier == 'quick' else 14000
     out = [match_dict_case(rng) for _ in range(n // 12)]
+    out += [{'kind': 'lang', 'i': i} for i in range(len(lang_scenarios()))]
     for _ in range(n):
         g = SpecGen(rng)
         t = g.target(rng.choice([2, 3, 3]))
@@ -190,8 +191,78 @@ def public_attrs(e):
     return {k: v for k, v in vars(e).items() if not k.startswith('_')}
 
 
+def lang_scenarios():
+    """exception classes with a meaning to the Python language or to class creation itself — StopIteration (PEP 479 turns it into
+    RuntimeError inside a generator frame), a class that refuses to be subclassed — at positions of their own: (name, class, spec)"""
+    import glom
+    from glom import Spec, Fill, Iter, T
+
+    class Drained(StopIteration):
+        pass
+
+    class Final(Exception):
+        def __init_subclass__(cls, **kw):
+            raise TypeError('Final may not be subclassed')
+
+    def boom(cls):
+        def raiser(t):
+            raise cls('exhausted', 7)
+        raiser.__name__ = 'raise_%s' % cls.__name__
+        return raiser
+    out = []
+    for cls in (StopIteration, Drained):
+        b = boom(cls)
+        out += [('%s in a callable' % cls.__name__, cls, b),
+                ('%s in a chain' % cls.__name__, cls, (T, b)),
+                ('%s in a list spec' % cls.__name__, cls, [b]),
+                ('%s in a dict spec' % cls.__name__, cls, {'k': b}),
+                ('%s in Fill([..])' % cls.__name__, cls, Fill([Spec(b), 1])),
+                ('%s in Fill((..))' % cls.__name__, cls, Fill((Spec(b), 1))),
+                ('%s in Fill({..})' % cls.__name__, cls, Fill({Spec(b)})),
+                ('%s in Fill(frozenset)' % cls.__name__, cls, Fill(frozenset([Spec(b)]))),
+                ('%s in Fill([(..)])' % cls.__name__, cls, Fill([(1, Spec(b))])),
+                ('%s in Fill({k: ..})' % cls.__name__, cls, Fill({'k': Spec(b)})),
+                ('%s in an Iter consumed by a later step' % cls.__name__, cls, (Iter(b), list))]
+    out.append(('a class that cannot be subclassed, in a callable', Final, boom(Final)))
+    out.append(('a class that cannot be subclassed, in a chain', Final, ('a', boom(Final))))
+    return out
+
+
+def run_lang(case):
+    import glom
+    name, cls, spec = lang_scenarios()[case['i']]
+    target = [{'a': 1}] if 'Iter' in name or 'list spec' in name else {'a': 1}
+    problems = []
+    for entry, call in (('glom', lambda **kw: glom.glom(target, spec, **kw)), ('Glommer', lambda **kw: glom.Glommer().glom(target, spec, **kw))):
+        try:
+            call()
+            problems.append('%s (%s): no exception' % (name, entry))
+            continue
+        except BaseException as e:  # noqa: B036
+            if not isinstance(e, cls):
+                problems.append('%s (%s): %s left glom() — not an instance of the %s that was raised' % (name, entry, type(e).__name__, cls.__name__))
+                continue
+            if e.args != ('exhausted', 7):
+                problems.append('%s (%s): args %r' % (name, entry, e.args))
+        d = object()
+        try:
+            if call(default=d, skip_exc=cls) is not d:
+                problems.append('%s (%s): default=, skip_exc=%s did not return the default object' % (name, entry, cls.__name__))
+        except BaseException as e:  # noqa: B036
+            problems.append('%s (%s): default=, skip_exc=%s raised %s' % (name, entry, cls.__name__, type(e).__name__))
+        try:
+            call(default=d, skip_exc=ZeroDivisionError)
+            problems.append('%s (%s): skip_exc=ZeroDivisionError swallowed the error' % (name, entry))
+        except BaseException as e:  # noqa: B036
+            if not isinstance(e, cls):
+                problems.append('%s (%s): with an unrelated skip_exc, %s left glom()' % (name, entry, type(e).__name__))
+    return {'problems': problems[:3], 'name': name}
+
+
 def run_impl(case):
     import glom
+    if case.get('kind') == 'lang':
+        return run_lang(case)
     del exccat.RAISED[:]
     r = pyval.Realiser()
     target = r.build(case['target'])
@@ -288,19 +359,27 @@ def seen_coq(out):
 
 
 def coq_case(case, out):
-    if 'harness_error' in out or 'harness_timeout' in out:
+    if case.get('kind') == 'lang' or 'harness_error' in out or 'harness_timeout' in out:
         return '(mkXC VNone (SRequired SM) [] (mkX "" [] [] None) (mkO None None false) [] (OValue (Unmodelled "harness")))'
     return '(mkXC %s %s [] %s %s %s %s)' % (val_coq(case['target']), pyspec.spec_coq(case['spec']), planted_coq(case['planted']),
                                             opts_coq(case['opts']), clist(cstr(n) for n in exccat.CATALOGUE), seen_coq(out))
 
 
 def model_dump_term(case):
+    if case.get('kind') == 'lang':
+        return '0'
     c = coq_case(case, {'seen': 'default'})
     return '(x_model %s, exit (xc_opts %s) (xc_planted %s))' % (c, c, c)
 
 
+def matches_finding(f, case, out):
+    return f['id'] == 'F42' and case.get('kind') == 'lang' and 'in an Iter consumed by a later step' in out.get('name', '')
+
+
 def direct_oracle(case, out):
     """the property read directly on the observation"""
+    if case.get('kind') == 'lang':
+        return '; '.join(out['problems']) if out.get('problems') else None
     if out.get('seen') == 'new':
         if not out['args_same']:
             return 'the exception leaving glom() has args %s, the original had %s' % (out['args'], out['origin_args'])
@@ -317,11 +396,15 @@ def direct_oracle(case, out):
 
 
 def nontrivial(case, out):
+    if case.get('kind') == 'lang':
+        return True
     o = case['opts']
     return case['depth'] >= 2 or case['planted'] in NONTRIVIAL_CTOR or o['default'] or o['skip'] is not None or o['debug']
 
 
 def classify(case, out):
+    if case.get('kind') == 'lang':
+        return 'lang'
     o = case['opts']
     return '%s|%s|%s%s%s' % (case['planted'] or 'unplanted', out.get('seen', 'harness'),
                              'D' if o['default'] else '-', 'S' if o['skip'] is not None else '-', 'G' if o['debug'] else '-')
